@@ -48,3 +48,24 @@ R.lemma_ob("seq64-closed-form", vars={"a": "int", "k": "int"},
 R.object_invariant("SequenceGenerator", f"1 <= self._sequence <= {MAX32}")
 R.assume("class invariant SequenceGenerator: 1 <= _sequence <= 2^32-1 (established by __init__, preserved by next_sequence - "
          "both proved under C16 - and no other writer in the package)")
+
+
+@R.specfn("hex_of")
+def _hex_of(ex, st, b):
+    """bytes.hex() of a byte string (the same uninterpreted, injective function the model of bytes.hex uses)"""
+    from pyvc.values import VStr
+    from pyvc.smt import STR, SEQI, app
+    ex.decls.fun("bytes_hex", [SEQI], STR)
+    return VStr(app("bytes_hex", STR, ex.unwrap(b).t))
+
+
+R.contract("SessionGenerator.__init__", params={"self": "SessionGenerator", "node_name": "str"},
+           ensures=[("start-time-field-is-the-unix-time-of-creation",
+                     "self._base_value == hex_of(be32(int(clock()))) and clock() >= old(clock())"),
+                    ("identity-field", "self.diameter_identity == node_name"),
+                    ("counter-in-range", f"0 <= self._sequence <= {MAX64}")],
+           raises=[Raise("OverflowError", "True", "may")],
+           modifies=["self._base_value", "self._busy_lock", "self._sequence", "self.diameter_identity"], props=["C16"],
+           note="the second field of every session id is the 4-byte big-endian hex of int(time.time()) read when the "
+                "generator is created (the virtual clock advances exactly at time.time()/sleep readings, so any other "
+                "clock source leaves clock() behind); OverflowError only after 2106")
